@@ -2,6 +2,7 @@
 // @id C11.mcd_transfer_conserves
 // @engine B
 // @entry vfh_C11_mcd_transfer
+// @shared_state_watch
 // @tier Q
 // @opts budget_s=300
 // @reach mcd.done
@@ -14,7 +15,7 @@
 // @engine B
 // @entry vfh_C06_mcd_state
 // @tier Q
-// @opts budget_s=300 confirm=stress:harness/C06/stress_transport.cpp
+// @opts budget_s=300 watch=1 confirm=stress:harness/C06/stress_transport.cpp
 // @reach mcd.done
 // @funcs Phreeqc::multi_D; Phreeqc::fill_m_s
 // @bounds the same multicomponent-diffusion step as C11.mcd_transfer_conserves, executed with every store monitored: a store to a process-wide mutable object of the library (a namespace-scope or static variable that is not a harness object, not a constant, not a vtable) while no mutex is held is reported (Eraser-style lock discipline: holds or fails for any number of threads)
